@@ -347,6 +347,16 @@ def r8(ctx):
                 rv = kind
                 if rv['k'] == 'agg' and rv.get('v') == 'None':
                     conds = path_conditions(cb, bb)
+                    lk = [k for k in conds if k.kind == 'bool' and k.expr.kind == 'call' and
+                          k.expr.name.endswith('Track::lookup')]
+                    if lk:
+                        # the Lookup arm written as filter_map: an entry is dropped exactly when lookup(q) is false
+                        n += 1
+                        ctx.check(all(k.truth is False for k in lk) and not [
+                            k for k in conds if k.kind == 'discr' and getattr(k, 'enum_ty', '').startswith(
+                                'track::TrackStatus')], R, cb, 'lookup-filter', 'dropped iff !lookup(q)',
+                            'the Lookup arm drops a track under %s instead of exactly `!lookup(q)`' % conds)
+                        continue
                     vs = [k.variants for k in conds if k.kind == 'discr' and getattr(k, 'enum_ty', '').startswith('track::TrackStatus')]
                     n += 1
                     ctx.check(vs == [{'Pending'}], R, cb, 'findbaked:dropped-statuses',
